@@ -206,7 +206,7 @@ def main(mod):
             print('VIOLATION property=%s replay=%s' % (pid, a.replay))
         sys.exit(1 if ok else 0)
     # a module may declare that its thorough tier runs the bounds of the quick tier : used where deeper bounds were not run clean on the unchanged tree within the session
-    eff_tier = 'quick' if (a.tier == 'thorough' and getattr(mod, 'THOROUGH_IS_QUICK', False)) else a.tier
+    eff_tier = 'quick' if (a.tier == 'thorough' and getattr(mod, 'THOROUGH_IS_QUICK', False) and not os.environ.get('VERIF_REAL_THOROUGH')) else a.tier
     env = _ENV = Env(mod, eff_tier, seed)
     t_export = time.time() - t0
     print('[%s] tier=%s: exported %d functions from /repo working tree in %.1fs' % (pid, a.tier, len(env.prog.funcs), t_export), flush=True)
@@ -287,6 +287,8 @@ def main(mod):
             ncex = 0
             for r in pool.imap_unordered(_worker, jobs, chunksize=1):
                 results.append(r)
+                if os.environ.get('VERIF_JOB_TIMES') and r.get('wall', 0) > 30:
+                    print('[%s] jobtime %s %.0fs' % (pid, r['name'], r['wall']), flush=True)
                 if r['err'] or r['cex']:
                     print('[%s] job %s: %s' % (pid, r['name'], (r['err'] or '%d counterexample(s)' % len(r['cex']))[-1500:]), flush=True)
                 ncex += len(r['cex'])
